@@ -720,6 +720,101 @@ Definition run_pad4e (c l : nat) (seed : N) (smac dmac : bytes) (ttl : N) (sip d
            else "-" in
   out3 m s "-".
 
+(* ---------------- re-use of views ---------------- *)
+(* A header is encoded once; then SetPayload / AppendPayload / re-slicing are applied one after
+   another, each on the view the previous call returned (larger, smaller, empty payloads; views
+   longer than the header; Set after Append and vice versa).  Transcript: per step the length of
+   the returned view and the layer's length field; at the end the changed window and the getters. *)
+Inductive sop := OpSet (pl : bytes) | OpApp (pl : bytes) | OpView (n : nat).
+
+Definition SEMI : ascii := ";"%char.
+Definition op_of_tok (t : string) : option sop :=
+  match t with
+  | String c (String e r) =>
+      if negb (Ascii.eqb e EQUALS) then None else
+      if Ascii.eqb c "s" then option_map OpSet (bytes_of_tok r)
+      else if Ascii.eqb c "a" then option_map OpApp (bytes_of_tok r)
+      else if Ascii.eqb c "v" then option_map (fun n => OpView (nn n)) (N_of_dec r)
+      else None
+  | _ => None
+  end.
+Fixpoint ops_of_toks (l : list string) : option (list sop) :=
+  match l with
+  | [] => Some []
+  | t :: r => match op_of_tok t, ops_of_toks r with Some o, Some os => Some (o :: os) | _, _ => None end
+  end.
+Definition ops_of_tok (s : string) : option (list sop) := ops_of_toks (Text.split COMMA s).
+
+Record layer := mkLayer {
+  l_hdr : nat;                                  (* header length = offset of the payload *)
+  l_set : slice -> nat -> res slice;            (* SetPayload (only the length is used) *)
+  l_app : slice -> bytes -> res slice;          (* AppendPayload *)
+  l_field : slice -> string;                    (* the layer's own length field *)
+  l_rb : slice -> string;
+  l_want_len : bool -> nat -> nat;              (* expected view length after Set(false)/Append(true) of n bytes *)
+  l_want_field : nat -> string;
+  l_errbig : bool }.                            (* a payload beyond the capacity is rejected with ErrPayloadTooBig *)
+
+(* (transcript, spec transcript, still inside the domain, current view) *)
+Fixpoint run_ops (ly : layer) (ops : list sop) (cur : slice) (buf : bytes) (m s : string) (fits : bool)
+  : option (string * string * bool * slice * bytes) :=
+  match ops with
+  | [] => Some (m, s, fits, cur, buf)
+  | o :: r =>
+      let step (res : res slice) (isapp : bool) (n : nat) :=
+        (* what the property expects of this step, independently of what the code did *)
+        let inside := Nat.leb (l_hdr ly + n) (cap cur) in
+        let want := if inside then dn (l_want_len ly isapp n) ++ "/" ++ l_want_field ly n
+                    else "err:EPayloadTooBig" in
+        let fit' := fits && (inside || (isapp && l_errbig ly)) in
+        match res with
+        | Ok c' => run_ops ly r c' (if Nat.eqb (cap c') 0 then buf else arr c')   (* a nil result: the storage is what it was *)
+                           (sp m (dn (len c') ++ "/" ++ l_field ly c')) (sp s want) fit'
+        | Err e => run_ops ly r cur buf (sp m ("err:" ++ show_err e)) (sp s want) fit'
+        | _ => None
+        end in
+      match o with
+      | OpSet pl => step (l_set ly (prewrite cur (l_hdr ly) pl) (List.length pl)) false (List.length pl)
+      | OpApp pl => step (l_app ly cur pl) true (List.length pl)
+      | OpView n =>
+          match reslice cur n with
+          | Ok c' => run_ops ly r c' buf (sp m ("v" ++ dn n)) (sp s ("v" ++ dn n)) (fits && Nat.leb (l_hdr ly) n)
+          | _ => None
+          end
+      end
+  end.
+
+Definition run_reuse (ly : layer) (old : bytes) (start : res slice) (ops : list sop) (fits0 : bool) : string :=
+  match start with
+  | Ok c0 =>
+      match run_ops ly ops c0 (arr c0) "ok" "ok" fits0 with
+      | Some (m, s, fits, cur, buf) =>
+          let tail := BAR ++ show_hull old buf ++ BAR ++ l_rb ly cur in
+          (* recorded defect class: a step on a view that is not header-only returns a view whose
+             length is relative to the old view (len(p)+len(b)) while the length field is absolute *)
+          out3 (m ++ tail) (if fits then s ++ tail else "-")
+               (if fits && negb (String.eqb m s) && l_errbig ly && negb (Nat.eqb (l_hdr ly) 14)
+                then "reuse-relative-length" else "-")
+      | None => out3 "panic" "-" "-"
+      end
+  | _ => out3 "panic" "-" "-"
+  end.
+
+Definition layer_ip4 (proto : N) : layer :=
+  mkLayer 20 (fun p n => ip4_set_payload p n proto) (fun p b => ip4_append p b proto)
+          (fun p => rNat (ip4_totlen p)) rb_ip4 (fun _ n => (20 + n)%nat) (fun n => dn (20 + n)) true.
+Definition layer_ip6 (nh : N) : layer :=
+  mkLayer 40 (fun p n => ip6_set_payload p n nh) (fun p b => ip6_append p b false nh)
+          (fun p => rN (ip6_payloadlen p)) rb_ip6 (fun _ n => (40 + n)%nat) (fun n => dn n) true.
+Definition layer_udp : layer :=
+  mkLayer 8 udp_set_payload udp_append (fun p => rN (udp_len p)) rb_udp (fun _ n => (8 + n)%nat) (fun n => dn (8 + n)) true.
+Definition layer_eth : layer :=
+  mkLayer 14 ether_set_payload (fun p b => ether_append p b (List.length b)) (fun _ => "-") rb_ether
+          (fun isapp n => if isapp then Nat.max 60 (14 + n) else (14 + n)%nat) (fun _ => "-") true.
+Definition layer_echo (t code id sq : N) : layer :=
+  mkLayer 8 (fun p _ => Panic) (fun p b => encode_icmp_echo p t code id sq b) (fun _ => "-") rb_echo
+          (fun _ n => (8 + n)%nat) (fun _ => "-") false.
+
 (* ---------------- constants the model hard-codes ---------------- *)
 (* compared with the values extracted from the library's source (harness/cmd/c03/consts.go);
    named model constants are referenced, literals used inside the model functions are repeated here *)
@@ -807,6 +902,64 @@ Definition dispatch (kind : string) (args : list string) : string :=
     match parse_args "nnnbbnbbnnnnb" args with
     | Some [AN c; AN l; AN s; AB smac; AB dmac; AN ttl; AB sip; AB dip; AN t; AN code; AN id; AN sq; AB data] =>
         run_pad4e (nn c) (nn l) s smac dmac ttl sip dip t code id sq data
+    | _ => BADARGS
+    end
+  else if String.eqb kind "re4" then
+    match args with
+    | [c; l; s; ttl; src; dst; proto; ops] =>
+        match parse_args "nnnnbbn" [c; l; s; ttl; src; dst; proto], ops_of_tok ops with
+        | Some [AN c; AN l; AN s; AN ttl; AB src; AB dst; AN proto], Some os =>
+            let b := mkbuf (nn c) (nn l) s in
+            run_reuse (layer_ip4 proto) (arr b) (encode_ip4 b ttl src dst) os (Nat.leb 10 (nn l) && Nat.leb 20 (nn c))
+        | _, _ => BADARGS
+        end
+    | _ => BADARGS
+    end
+  else if String.eqb kind "re6" then
+    match args with
+    | [c; l; s; hop; src; dst; nh; ops] =>
+        match parse_args "nnnnbbn" [c; l; s; hop; src; dst; nh], ops_of_tok ops with
+        | Some [AN c; AN l; AN s; AN hop; AB src; AB dst; AN nh], Some os =>
+            let b := mkbuf (nn c) (nn l) s in
+            if Nat.ltb (nn c) 40 then out3 "fresh" "-" "-" else
+            run_reuse (layer_ip6 nh) (arr b) (bind (encode_ip6 b hop src dst) (fun x => Ok (fst x))) os true
+        | _, _ => BADARGS
+        end
+    | _ => BADARGS
+    end
+  else if String.eqb kind "reu" then
+    match args with
+    | [c; l; s; sport; dport; ops] =>
+        match parse_args "nnnnn" [c; l; s; sport; dport], ops_of_tok ops with
+        | Some [AN c; AN l; AN s; AN sport; AN dport], Some os =>
+            let b := mkbuf (nn c) (nn l) s in
+            if Nat.ltb (nn c) 8 then out3 "nil" "-" "-" else
+            run_reuse layer_udp (arr b) (encode_udp b sport dport) os true
+        | _, _ => BADARGS
+        end
+    | _ => BADARGS
+    end
+  else if String.eqb kind "ree" then
+    match args with
+    | [c; l; s; ht; src; dst; ops] =>
+        match parse_args "nnnnbb" [c; l; s; ht; src; dst], ops_of_tok ops with
+        | Some [AN c; AN l; AN s; AN ht; AB src; AB dst], Some os =>
+            let b := mkbuf (nn c) (nn l) s in
+            run_reuse layer_eth (arr b) (encode_ether b ht src dst) os
+                      (Nat.eqb (hlen_of_type ht) 14 && Nat.leb 60 (nn c))
+        | _, _ => BADARGS
+        end
+    | _ => BADARGS
+    end
+  else if String.eqb kind "rec" then
+    match args with
+    | [c; l; s; t; code; id; sq; ops] =>
+        match parse_args "nnnnnnn" [c; l; s; t; code; id; sq], ops_of_tok ops with
+        | Some [AN c; AN l; AN s; AN t; AN code; AN id; AN sq], Some os =>
+            let b := mkbuf (nn c) (nn l) s in
+            run_reuse (layer_echo t code id sq) (arr b) (Ok b) os true
+        | _, _ => BADARGS
+        end
     | _ => BADARGS
     end
   else if String.eqb kind "consts" then
